@@ -402,10 +402,14 @@ func (r *Rel) Invert() Rel {
 //
 // This is the form stored in Schema.Rels.
 func (r *Rel) Normalize() Rel {
-	from := r.FromType + r.FromName
-	to := r.ToType + r.ToName
+	if r.ToName == "" {
+		return *r
+	}
 
-	if from < to || r.ToName == "" {
+	// The type names are compared first and then the relationship
+	// names. Comparing the concatenations is not enough, because
+	// different pairs of names can give the same concatenation.
+	if r.FromType < r.ToType || (r.FromType == r.ToType && r.FromName <= r.ToName) {
 		return *r
 	}
 
